@@ -368,6 +368,24 @@ def c02(version, routes, ops, timeout, res):
             if tw and abs((t - tw[0]) - timeout) > 1e-9:
                 bad.append(("deadline:%s" % jkey(uid)[:40],
                             "caller %d timed out %.2f s after its CALL was written (response timeout %s)" % (k, t - tw[0], timeout)))
+            # ... and a timeout means that no reply with its id arrived inside the window
+            if tw:
+                now, seen_start = 0.0, False
+                for i, o in enumerate(ops):
+                    if o[0] == "tick":
+                        now += o[1]
+                    elif o[0] == "inbound" and i > start_index.get(k, 10 ** 9):
+                        try:
+                            fr = json.loads(o[1])
+                        except ValueError:
+                            continue
+                        if isinstance(fr, list) and len(fr) >= 3 and fr[0] in (3, 4) and not isinstance(fr[0], bool) and len(fr) == (3 if fr[0] == 3 else 5) \
+                                and isinstance(fr[2] if fr[0] == 3 else {}, dict) and _py_eq(fr[1], uid) and type(fr[1]) is type(uid) \
+                                and tw[0] + 1e-9 < now < tw[0] + timeout - 1e-9:
+                            bad.append(("own-reply-not-delivered:%s" % jkey(uid)[:40],
+                                        "caller %d (id %r, CALL written at %.2f) timed out although a well-formed reply with its id arrived at %.2f (after the CALL was written), "
+                                        "inside the response timeout of %s s" % (k, uid, tw[0], now, timeout)))
+                            break
     for k in res.get("pending", []):
         bad.append(("never-completes:%s" % k, "caller %s never completed although the clock passed every deadline" % k))
     return bad
